@@ -223,7 +223,7 @@ fn classify(c: &Cursor, ident: &str) -> Option<TokenKind> {
 
 /// every instruction/trap mnemonic (lowercase, as the classifier expects) maps to its documented kind
 #[kani::proof]
-#[kani::unwind(8)]
+#[kani::unwind(12)]
 #[kani::stub(alloc::fmt::format, stubs::fmt_format)]
 fn c01_keywords_instructions() {
     crate::features::verif_h::set_stack(true);
@@ -284,7 +284,7 @@ fn c01_keywords_instructions() {
 /// C18: the four stack mnemonics are refused by the lexer when the flag is off (and only they);
 /// every other keyword classifies identically whatever the flag
 #[kani::proof]
-#[kani::unwind(8)]
+#[kani::unwind(12)]
 #[kani::stub(alloc::fmt::format, stubs::fmt_format)]
 fn c18_gate_lexer() {
     let on: bool = kani::any();
@@ -308,7 +308,7 @@ fn c18_gate_lexer() {
 /// C18 H-indep: with the feature cell *uninitialised* (any read of the flag panics) every keyword other than
 /// the four stack mnemonics classifies fine: those paths never consult the flag
 #[kani::proof]
-#[kani::unwind(8)]
+#[kani::unwind(12)]
 #[kani::stub(alloc::fmt::format, stubs::fmt_format)]
 fn c18_flag_not_consulted_elsewhere() {
     let c = Cursor::new("");
